@@ -76,6 +76,7 @@ class Spec(dict):
 
 
 # ------------------------------------------------------------------ generation
+MAPPING_ATTRS = ["items", "keys", "values", "get", "copy", "pop", "update", "clear", "setdefault", "count", "index"]
 _DESC = st.sampled_from([None, None, None, None, "d", "A description.", "two\nlines", "with \"quotes\"", "  lead", "x\n  indented\nz",
                          "ends with a quote\"", "ends with a backslash\\", "has \"\"\" inside", "caf\u00e9 \U0001F600", "trailing space ",
                          "First.\n  \nSecond.", "a\n\t\nb", "a\n      \n  b\n\nc", "p\n \nq",   # interior lines of blanks only / empty
@@ -325,6 +326,12 @@ def specs(draw, rich=True, with_mutation=None, with_subscription=False, max_obje
                 fs.append(g)
         for i in range(draw(st.integers(1, 3))):
             fs.append(gen_field("%s_f%d" % (n.lower(), i)))
+        if draw(st.integers(0, 4)) == 0:
+            # a field nobody resolves ("absent"): no resolver is attached and the parent value has no such key / attribute, so
+            # it completes to null through the library's default resolver - whatever the field is called, including names
+            # that happen to be attributes of the mapping / object holding the parent value
+            fs.append({"name": draw(st.sampled_from(MAPPING_ATTRS)), "type": draw(st.sampled_from(["Int", "String", "[Int]"])), "args": [],
+                       "desc": None, "deprecated": None, "absent": True})
         types[n] = {"kind": "object", "name": n, "interfaces": impl, "fields": fs, "desc": draw(_DESC)}
     # every interface needs >= 1 implementation for execution worlds; force O0 to implement unimplemented ones
     for i in ifaces:
